@@ -383,7 +383,12 @@ func (x *c14rx) read(sid uint32, capacity int) string {
 	st, b := mux.Verif14StreamRead(s, capacity)
 	op := fmt.Sprintf("dg.sread sid=%d cap=%d", sid, capacity)
 	if st == "data" {
-		x.got[sid] = append(x.got[sid], b)
+		// a zero-length buffer reads nothing: Stream.Read answers it (0, nil) before the pipe is asked (the known finding
+		// reported by the caller) - that answer is not a datagram (no datagram is empty: obfuscate refuses an empty payload).
+		// Recording it as one made the multiset monitor below report an extra "" at generator seed 4 (triage log, 2026-09-24)
+		if capacity > 0 || len(b) > 0 {
+			x.got[sid] = append(x.got[sid], b)
+		}
 		if x.emitT {
 			x.c.o.T(op, fmt.Sprintf("data n=%d h=%d", len(b), fnv32(b)))
 		}
